@@ -1,7 +1,8 @@
 (* Property C06 - a handshake completes only along a legal message sequence.  Statements only.
    Model: Hs/HsModel.v (code-shaped gates, handlers and flight writers of MatrixSSL as repaired by pending-fixes/C06-1..6);
    grammar: Hs/HsSpec.v (RFC 5246 7.3, RFC 5077, RFC 6066, RFC 4279, RFC 8446 2).
-   [all_cfgs]: every server configuration (TLS 1.3 on/off, client authentication, ticket keys) and every client
+   [all_cfgs]: every TLS server configuration (TLS 1.3 on/off, client authentication, ticket keys), every DTLS server
+   configuration (client authentication), and every TLS / DTLS client
    configuration (TLS 1.3 on/off x the session-ticket state the ClientHello writer can leave: no session id object,
    INIT, SENT_EMPTY, SENT_TICKET).  [run (init c) is]: the receiver fed with ANY list of inputs - handshake messages of
    any type byte with any oracle answer about their body, and ChangeCipherSpec records. *)
@@ -16,18 +17,20 @@ Theorem c06_only_legal : forall c is, In c all_cfgs ->
 Proof. exact only_legal. Qed.
 Print Assumptions c06_only_legal.
 
-(* a message after which the accepted log can no longer be completed to a legal sequence yields a fatal alert and the error flag
-   (never an advance); the TLS 1.3 middlebox ChangeCipherSpec, which RFC 8446 says to drop, is the only input excluded *)
+(* a message after which the accepted log can no longer be completed to a legal sequence yields a fatal alert and the error flag,
+   never an advance.  The only other outcomes leave the session exactly as it was ([quiet3]):
+   - a ChangeCipherSpec that RFC 8446 section 5 tells a TLS 1.3 receiver to drop; on DTLS the ChangeCipherSpec of a retransmitted
+     flight (one was just taken; it has no message_seq);
+   - DTLS: a ChangeCipherSpec out of place, or a handshake message whose message_seq is NOT the expected one - a retransmission
+     (seen before) or an early arrival (future) - is dropped: datagram loss / reordering / duplication is not a deviation of the
+     message sequence.  A message with the EXPECTED message_seq and the wrong type is a deviation and is fatal;
+   - on a COMPLETED session a renegotiation request gets the no_renegotiation warning of RFC 5246 7.2.2. *)
 Theorem c06_deviation_fatal : forall c is i, In c all_cfgs ->
   let s := fst (run (init c) is) in
   err s = false ->
-  (v13 s = true -> i <> ICcs) ->
   ~ prefix_ok c (acc s ++ [item_of i]) ->
   exists s' o, step s i = (s', o) /\
-    ((fatal_out o = true /\ err s' = true) \/
-     (* only on a COMPLETED session: a renegotiation request (ClientHello to a server, HelloRequest to a client) is answered
-        with the no_renegotiation warning of RFC 5246 7.2.2 and changes nothing *)
-     (o = OWarn c_SSL_ALERT_NO_RENEGOTIATION /\ s' = s /\ hs s = DONE)).
+    ((fatal_out o = true /\ err s' = true) \/ (quiet3 s i o /\ s' = s)).
 Proof. exact deviation_fatal. Qed.
 Print Assumptions c06_deviation_fatal.
 
@@ -41,11 +44,14 @@ Theorem c06_no_skip : forall c is, In c all_cfgs ->
 Proof. exact no_skip. Qed.
 Print Assumptions c06_no_skip.
 
-(* TLS <= 1.2: with the read side unprotected (no ChangeCipherSpec yet) every Finished message is fatal *)
+(* (D)TLS <= 1.2: with the read side unprotected (no ChangeCipherSpec yet) every Finished message is fatal - on DTLS unless its
+   message_seq is not the expected one, in which case it is dropped like any such message *)
 Theorem c06_no_finished_before_ccs : forall c is m, In c all_cfgs ->
   let s := fst (run (init c) is) in
   err s = false -> v13 s = false -> rsec s = false -> m_typ m = FIN ->
-  exists s' o, step s (IHs m) = (s', o) /\ fatal_out o = true /\ err s' = true.
+  exists s' o, step s (IHs m) = (s', o) /\
+    ((fatal_out o = true /\ err s' = true) \/
+     (dtls s = true /\ m_cls m <> MExp /\ (exists r, o = ODrop r) /\ s' = s)).
 Proof. exact no_finished_before_ccs. Qed.
 Print Assumptions c06_no_finished_before_ccs.
 
@@ -54,7 +60,7 @@ Print Assumptions c06_no_finished_before_ccs.
 Theorem c06_finished_binds : forall c is, In c all_cfgs ->
   let s := fst (run (init c) is) in
   err s = false -> hs s = DONE ->
-  exists is1 is2, is = is1 ++ IHs (mkmsg FIN (BFin true)) :: is2 /\
+  exists is1 cl is2, is = is1 ++ IHs (mkmsg FIN (BFin true) cl) :: is2 /\
     let s1 := fst (run (init c) is1) in
     err s1 = false /\ hs s1 <> DONE /\ snap s = tr s1.
 Proof. exact finished_binds. Qed.
@@ -65,11 +71,25 @@ Print Assumptions c06_finished_binds.
 Theorem c06_finished_binds_oracle : forall (verify : list tent -> Z -> bool) c cis, In c all_cfgs ->
   let s := grun (conc verify) (init c) cis in
   err s = false -> hs s = DONE ->
-  exists pre b vd post, cis = pre ++ (IHs (mkmsg FIN (BFin b)), vd) :: post /\
+  exists pre b cl vd post, cis = pre ++ (IHs (mkmsg FIN (BFin b) cl), vd) :: post /\
     let s1 := grun (conc verify) (init c) pre in
     hs s1 <> DONE /\ verify (tr s1) vd = true /\ snap s = tr s1.
 Proof. exact finished_binds_oracle. Qed.
 Print Assumptions c06_finished_binds_oracle.
+
+(* DTLS: every run with concrete message_seq numbers ([drun]: lastMsn beside the state, the class of each message computed
+   from it as parseSSLHandshake does) is a run of the machine the theorems above quantify over *)
+Theorem c06_dtls_runs_are_runs : forall dis d, exists is, d_core (drun d dis) = fst (run (d_core d) is) /\ length is = length dis.
+Proof. exact drun_is_run. Qed.
+Print Assumptions c06_dtls_runs_are_runs.
+
+(* DTLS: a message whose message_seq was seen before (other than 0) or lies ahead is dropped before the type is looked at *)
+Theorem c06_dtls_old_or_future_dropped : forall s m,
+  err s = false -> v13 s = false -> dtls s = true -> (m_cls m = MStale \/ m_cls m = MFut) ->
+  step s (IHs m) = (s, ODrop (match m_cls m with MStale => true | _ => false end)) \/
+  (hs s = DONE /\ step s (IHs m) = (s, OWarn c_SSL_ALERT_NO_RENEGOTIATION)).
+Proof. exact dtls_old_or_future_dropped. Qed.
+Print Assumptions c06_dtls_old_or_future_dropped.
 
 (* the build switches the model assumes are the ones of the source *)
 Theorem c06_config_as_modelled :
